@@ -238,6 +238,7 @@ def acceptOf : String → Option (List GTy → Bool)
       | [a, b] => a == b
       | _ => false
   | "any" => some fun _ => true
+  | "some" => some fun ts => ts.length ≥ 1
   | _ => none
 
 def parsePlugins : List SExp → Option (List (Name × Plugin GTy))
